@@ -194,6 +194,8 @@ def gen_path_op(rng, o, N, kinds=("move", "rotate", "setter", "reset"), forms=FO
         return {"op": "reset_path", "o": o}
     if alias and rng.random() < 0.3:
         op["as_array"] = True  # inputs as caller-owned float64 ndarrays, overwritten after the call
+    if alias and isinstance(op.get("start"), int) and rng.random() < 0.2:
+        op["start_np"] = rng.choice(["int64", "int8", "int32"] + (["uint64", "uint8"] if op["start"] >= 0 else []))
     return op
 
 
@@ -290,6 +292,9 @@ def _as_arrays(op):
 def exec_path_op(obj, op):
     """Execute on a real magpylib object.  Returns 'ok' or 'raised:<Type>'."""
     bufs = []
+    if op.get("start_np") and isinstance(op.get("start"), int) and not op.get("bad"):
+        # the same integer as a NumPy scalar type (start is documented as an integer)
+        op = dict(op, start=getattr(np, op["start_np"])(op["start"]))
     if op.get("as_array"):
         op, bufs = _as_arrays(op)
     try:
